@@ -1,7 +1,160 @@
 import CddVerif.Driver.Basic
-/-! Driver ops for C06 (line protocol; see Main.lean). Only Mathlib-free imports here. -/
-namespace Driver.C06
-open Lean Driver
+import CddVerif.Model.JsonSchema
+/-! Driver ops for C06 (line protocol; see Main.lean). Only Mathlib-free imports here.
 
-def ops : List (String × Handler) := []
+Wire encoding of a JSON value (ordered objects, ints and floats kept apart): scalars `null` / `true` / `"s"` / `5`
+as themselves, a float as `["f", "<repr>"]`, an array as `["a", [..]]`, an object as `["o", [[key, value], ..]]`. -/
+namespace Driver.C06
+open Lean Driver JsonSchema
+
+partial def ofWire (j : Json) : Except String J :=
+  match j with
+  | .null => pure .null
+  | .bool b => pure (.bool b)
+  | .str s => pure (.str s.toList)
+  | .num n => if n.exponent == 0 then pure (.int n.mantissa) else throw "non-integer number on the wire"
+  | .arr a =>
+    match a.toList with
+    | [.str "f", .str r] => pure (.float r.toList)
+    | [.str "a", .arr xs] => do return .arr (← xs.toList.mapM ofWire)
+    | [.str "o", .arr kvs] => do
+      let l ← kvs.toList.mapM (fun kv => match kv with
+        | .arr p => match p.toList with
+          | [.str k, v] => do return (k.toList, ← ofWire v)
+          | _ => throw "bad pair"
+        | _ => throw "bad pair")
+      return .obj l
+    | _ => throw "bad compound"
+  | .obj _ => throw "raw object on the wire"
+
+partial def toWire : J → Json
+  | .null => .null
+  | .bool b => .bool b
+  | .int i => Driver.int i
+  | .float r => .arr #[.str "f", Driver.str r]
+  | .str s => Driver.str s
+  | .arr xs => .arr #[.str "a", .arr (xs.map toWire).toArray]
+  | .obj kvs => .arr #[.str "o", .arr (kvs.map (fun kv => Json.arr #[Driver.str kv.1, toWire kv.2])).toArray]
+
+def optField (j : Json) (k : String) : Option Json :=
+  match j.getObjVal? k with
+  | .ok .null => none
+  | .ok v => some v
+  | .error _ => none
+
+def baseOf (s : String) : Except String Base :=
+  match s with
+  | "int" => pure .int | "float" => pure .float | "str" => pure .str | "bool" => pure .bool
+  | "dict" => pure .dict | "list" => pure .list
+  | _ => throw s!"unknown base {s}"
+
+def typOf (j : Json) : Except String Typ := do
+  let opt ← getBool j "opt"
+  match optField j "lit" with
+  | some (.arr ms) => do
+    let l ← ms.toList.mapM (fun m => do return (← m.getStr?).toList)
+    return { optional := opt, core := .lit l }
+  | _ => do
+    let b ← baseOf (← getStr j "base")
+    return { optional := opt, core := .base b }
+
+def defaultOf (j : Json) : Except String Default :=
+  match j with
+  | .arr a => match a.toList with
+    | [.str "i", v] => do return .int (← v.getInt?)
+    | [.str "f", .str r] => pure (.float r.toList)
+    | [.str "b", .bool b] => pure (.bool b)
+    | [.str "s", .str s] => pure (.str s.toList)
+    | [.str "n"] => pure .none
+    | _ => throw "bad default"
+  | _ => throw "bad default"
+
+def optStrOf (j : Json) (k : String) : Except String (Option Py.Str) :=
+  match optField j k with
+  | some v => do return some (← v.getStr?).toList
+  | none => pure none
+
+def irOf (j : Json) : Except String IR := do
+  let name ← optStrOf j "name"
+  let doc ← getChars j "doc"
+  let ps ← getArr j "params"
+  let params ← ps.toList.mapM (fun kv => do
+    let p ← kv.getArr?
+    let n ← p[0]!.getStr?
+    let v := p[1]!
+    let typ ← typOf (← v.getObjVal? "typ")
+    let d ← optStrOf v "doc"
+    let dflt ← match optField v "default" with
+      | some x => do pure (some (← defaultOf x))
+      | none => pure none
+    return (n.toList, ({ typ := typ, doc := d, default := dflt } : Param)))
+  let ret ← match optField j "returns" with
+    | some r => do
+      let typ ← typOf (← r.getObjVal? "typ")
+      let d ← optStrOf r "doc"
+      pure (some ({ typ := typ, doc := d } : Ret))
+    | none => pure none
+  return { name := name, doc := doc, params := params, returns := ret }
+
+def optJ : Option J → Json
+  | none => .arr #[]
+  | some v => .arr #[toWire v]
+
+def pirJson (p : PIR) : Json :=
+  Json.mkObj [
+    ("name", optJ p.name),
+    ("doc", Driver.str p.doc),
+    ("params", .arr (p.params.map (fun np => Json.arr #[Driver.str np.1, Json.mkObj [
+        ("typ", optStr np.2.typ), ("doc", optJ np.2.doc), ("default", optJ np.2.default),
+        ("extra", toWire (.obj np.2.extra))]])).toArray),
+    ("returns", match p.returns with
+      | none => .null
+      | some r => Json.mkObj [("typ", optStr r.typ), ("doc", optStr r.doc)])]
+
+def pairs (t : List (List Char × List Char)) : Json :=
+  .arr (t.map (fun kv => Json.arr #[Driver.str kv.1, Driver.str kv.2])).toArray
+
+def ops : List (String × Handler) := [
+  ("c06.emit", fun j => do
+    let ir ← irOf (← j.getObjVal? "ir")
+    return Json.mkObj [
+      ("schema", toWire (emit ir)),
+      ("typs", strs (ir.params.map (fun np => np.2.typ.render))),
+      ("ret_typ", optStr (ir.returns.map (fun r => r.typ.render))),
+      ("in_domain", .bool ir.ok),
+      ("nodup", .bool (decide (ir.params.map (·.1)).Nodup))]),
+  ("c06.parse", fun j => do
+    let s ← ofWire (← j.getObjVal? "schema")
+    match parse s with
+    | .ok p => return Json.mkObj [("ok", pirJson p)]
+    | .error e => return Json.mkObj [("raises", Driver.str e)]),
+  ("c06.roundtrip", fun j => do
+    let ir ← irOf (← j.getObjVal? "ir")
+    match parse (emit ir) with
+    | .ok p => return Json.mkObj [("ok", pirJson p)]
+    | .error e => return Json.mkObj [("raises", Driver.str e)]),
+  ("c06.valid", fun j => do
+    let s ← ofWire (← j.getObjVal? "schema")
+    return Json.mkObj [("valid", .bool (validSchema s))]),
+  ("c06.validates", fun j => do
+    let s ← ofWire (← j.getObjVal? "schema")
+    let i ← ofWire (← j.getObjVal? "inst")
+    return Json.mkObj [("valid", .bool (validates s i))]),
+  ("c06.pat", fun j => do
+    let p ← getChars j "pat"
+    let s ← getChars j "s"
+    return Json.mkObj [("accepts", .bool (patAccepts p s))]),
+  ("c06.desc", fun j => do
+    let s ← getChars j "s"
+    let (d, r) := parseDesc s
+    return Json.mkObj [("doc", Driver.str d), ("returns", match r with
+      | none => .null
+      | some r => Json.mkObj [("typ", optStr r.typ), ("doc", optStr r.doc)])]),
+  ("c06.tables", fun _ => do
+    return Json.mkObj [
+      ("json_type2typ", pairs Gen.JsonSchemaTables.jsonType2typ),
+      ("typ2json_type", pairs Gen.JsonSchemaTables.typ2jsonType),
+      ("none_strs", strs Gen.JsonSchemaTables.noneTypeStrs),
+      ("none_in_none_types", .bool Gen.JsonSchemaTables.noneInNoneTypes)])
+]
 end Driver.C06
